@@ -349,6 +349,17 @@ fn shape_cases(tier: Tier) -> Vec<Case> {
             v.push(Case::Ellipse { w, h });
         }
     }
+    // display-scale shapes: the products of the axes pass 2^16 (and their squares 2^32)
+    for (w, h) in [(320u32, 240u32), (240, 320), (256, 257), (257, 255), (480, 272), (800, 600), (1024, 1024), (1023, 1024), (1024, 3), (2, 1024), (182, 181)] {
+        v.push(Case::Ellipse { w, h });
+    }
+    for d in [320u32, 511, 1024] {
+        v.push(Case::Circle { d });
+    }
+    for (w, h, r) in [(800u32, 600u32, (300u32, 200u32)), (640, 480, (320, 240)), (1024, 300, (400, 100)), (300, 1024, (129, 511))] {
+        v.push(Case::RRect { w, h, tl: r, tr: r, br: r, bl: r });
+        v.push(Case::RRect { w, h, tl: r, tr: (r.1, r.0), br: (17, 400), bl: (0, 0) });
+    }
     let (ms, mr) = tier.pick((10, 6), (14, 9));
     for w in 0..=ms {
         for h in 0..=ms {
@@ -390,7 +401,7 @@ fn angle_cases(tier: Tier) -> Vec<Case> {
             start += st_step;
         }
         // special angles: zero and tiny sweeps, quadrant boundaries, half and full turns
-        for start in [0, 45, 90, 135, 180, 270, 359] {
+        for start in [0, 45, 90, 135, 180, 270, 359, -90, -1, 360, 400, 725, -725, 1080] {
             for sweep in [0, 1, -1, 45, 90, -90, 179, 180, 181, -179, -180, -181, 359, 360, -359, -360] {
                 v.push(Case::Angle { d, start: start * 4, sweep: sweep * 4 });
             }
@@ -424,7 +435,7 @@ fn angle_cases(tier: Tier) -> Vec<Case> {
 fn run_part(run: &mut Run) {
     let tier = run.tier;
     match run.part.as_str() {
-        "shapes" => run.sweep_vec("shapes", "circles d in 0..=64 (thorough 256), ellipses w,h in 0..=32 (96), rounded rectangles w,h in 0..=10 (14) x equal radii 0..=6^2 (9^2) and products of unequal radii on listed sizes", || shape_cases(tier), check),
+        "shapes" => run.sweep_vec("shapes", "circles d in 0..=64 (thorough 256), ellipses w,h in 0..=32 (96), rounded rectangles w,h in 0..=10 (14) x equal radii 0..=6^2 (9^2) and products of unequal radii on listed sizes, plus 11 ellipses, 3 circles and 8 rounded rectangles at display scale (axes up to 1024)", || shape_cases(tier), check),
         "angles" | "angles-fixed-point" => run.sweep_vec("angles", "sectors and arcs: diameters {1..=10,15,16,31,32,33,64,127,128} x start x sweep -370..=370 on degree grids (step 3/5-7/17-23 quick, 1/1-3/7-11 thorough) plus fractional angles in quarter degrees", || angle_cases(tier), check),
         p => panic!("unknown part {p}"),
     }
